@@ -11,7 +11,14 @@ SFetch(w) ==
     /\ UNCHANGED <<tasks, queue, inProg, sem, log, req, ctx, bus, cancels>>
 \* the main loop handles a LoadEnd under the lock Load needs: in the replay Load runs when no batch is waiting
 SStoreLoad == bus = <<>> /\ StoreLoad
+\* the read of the block fails: the driver denies the block for the time of this fetch
+SFetchErr(w) ==
+    /\ w \in W /\ workers[w].pc = "dequeued" /\ WLive(w)
+    /\ workers[w].item \in Flaky /\ req[NReq] = "new"
+    /\ SetW(w, "failed", workers[w].item)
+    /\ UNCHANGED <<tasks, queue, inProg, sem, buffer, log, req, ctx, bus, cancels>>
 SimNext == \/ SStoreLoad
+           \/ \E w \in 1..MaxW : SFetchErr(w)
            \/ \E q \in Reqs : Request(q)
            \/ \E w \in 1..MaxW : Acquire(w)
            \/ \E w \in 1..MaxW : AcquireFail(w)
